@@ -69,7 +69,10 @@ class Runner:
         ctx.hist("family", case["family"].rstrip("0123456789x"))
         ctx.hist("entry_backend", f"{case['entry']}/{case['backend']}")
         ctx.hist("idkind", case["idkind"] + ("/" + case["link_type"] if case.get("link_type") else ""))
-        ctx.hist("threshold", "none" if case["thr"] is None else f"{case['thr'][0]}={case['thr'][1]}")
+        ctx.hist("threshold", "none" if case["thr"] is None else case["thr"][0] + ("" if case["thr"][0] in ("pf", "wf") else f"={case['thr'][1]}"))
+        if case["thr"] is not None and case["thr"][0] in ("pf", "wf"):
+            tq = X.thr_fraction(case["thr"], case["backend"])
+            ctx.hist("edges exactly on a non-dyadic threshold", min(5, sum(1 for e in case["edges"] if X.pfrac(e[2]) == tq)))
         ctx.hist("nodes", "1-4" if n <= 4 else "5-8" if n <= 8 else "9-32" if n <= 32 else "33-128" if n <= 128
                  else "129-512" if n <= 512 else ">512")
         ctx.hist("components", "1" if ncomp == 1 else "2-4" if ncomp <= 4 else "5+")
@@ -141,6 +144,19 @@ def generate(ctx: Ctx, R: Runner):
                     break
                 if case is not None:
                     R.add(case, trace=True)
+    # non-dyadic probabilities with the threshold exactly on bridging edges (linker method emphasised)
+    nd_combos = [("linker", "duckdb", "int", "dedupe_only"), ("linker", "sqlite", "int", "dedupe_only"),
+                 ("linker", "duckdb", "link", "link_and_dedupe"), ("standalone", "duckdb", "int", None),
+                 ("linker", "duckdb", "str", "dedupe_only"), ("linker", "sqlite", "link", "link_only"),
+                 ("standalone", "sqlite", "str", None), ("linker", "duckdb", "link", "link_only")]
+    for i in range(64 if quick else 400):
+        entry, backend, idkind, lt = nd_combos[i % len(nd_combos)]
+        fam = X.FAMILIES[(i // len(nd_combos) + i) % len(X.FAMILIES)]
+        for _ in range(20):
+            c = X.build_nd_case(rng, fam, rng.choice([3, 5, 8, 12]), entry, backend, idkind, lt)
+            if not (idkind == "link" and entry == "linker" and len({x[0] for x in c["nodes"]}) < 2):
+                R.add(c, trace=(i % 4 == 0))
+                break
     # long chains (iteration-count maximisers), thresholds that do not cut the chain
     sizes = [(89, "sqlite"), (89, "duckdb")] if quick else \
         [(89, "sqlite"), (144, "duckdb"), (233, "sqlite"), (300, "sqlite"), (300, "duckdb")]
@@ -270,7 +286,9 @@ def run(ctx: Ctx):
         "harness/c05_x.py: id -> rank map (numeric for integer ids, byte order for ASCII strings and sds||'-__-'||uid)",
         "modelled not verified: SQL engines' UNION/GROUP BY/min/JOIN/NOT IN semantics per DESIGN 3b (checked table by "
         "table on the lock-step sample); match_probability never NULL; edges only mention rows of the node table",
-        "non-integer match-weight thresholds are not exercised (integer weights only: 2^w/(1+2^w) is exact in Q)",
+        "non-dyadic thresholds (decimal probabilities, fractional match weights through the implementation's conversion): "
+        "the model's threshold is the exact rational the engine compares a DOUBLE column against, probed on the 7 doubles "
+        "around the literal on an independent connection (DuckDB reads the literal as DECIMAL)",
     ]
     ok = ctx.proof_stage("Properties/C05.v")
     if not ok:
